@@ -13,6 +13,18 @@ CLAIMED = {
              "trusted to return a list (validated per call). gaussian_merge's reordering is checked under C11.",
         technique="Lean 4 proof (trace-monoid reordering lemma, induction) + model/code correspondence",
         ref="DESIGN.md §3 K1, §4 C04"),
+    "C18": dict(
+        text="Lean 4 theorems over the model of Program.__eq__ and program_equivalence: equality implies field-by-field "
+             "identical commands (hence equal meaning), is reflexive and symmetric; DAG-isomorphism equivalence implies "
+             "equal meaning in every monoid interpretation that depends only on the compared attributes and commutes on "
+             "disjoint wires (via the K1 reordering theorem). Exact correspondence on generated (base, variant) pairs; "
+             "oracle runs both programs whenever the real comparison says equal/equivalent.",
+        note="Trusted: Lean kernel + standard axioms; correspondence harness; NetworkX is_isomorphic (cross-checked by the "
+             "model's brute-force isomorphism search on <=7 commands); symmetric-gate list is a physical assumption. "
+             "Completeness direction (reorder => equivalent) proved only under an edge-set hypothesis (…_partial), "
+             "checked on every generated reorder.",
+        technique="Lean 4 proof (soundness of comparison via trace-monoid lemma) + model/code correspondence",
+        ref="DESIGN.md §3 K1, §4 C18"),
 }
 PENDING_REASON = "check not built yet in this round; the Lean model for its core is still under construction"
 
